@@ -34,6 +34,7 @@ def must_see(tier):
                   'generator', 'range', 'other-impl'):
             m['%s:operand:%s' % (impl, k)] = 5
         m[impl + ':dups-across-operands'] = 10
+        m[impl + ':ghost-operands'] = 20
     return m
 
 
@@ -173,6 +174,11 @@ def run_shard(spec, rec):
                     operand_kinds=kinds[:12])
         rec.journal(repr(desc))
         fn = fam.fn('multiunion', impl)
+        keep = None
+        if i % 3 == 0:
+            # operands as they come out of a database: ghosts
+            keep, ng = setops.store_and_ghostify(ops, rec, impl + ':')
+            desc['ghost_operands'] = ng
         try:
             r = fn(ops)
         except Exception as e:
